@@ -360,11 +360,47 @@ pub struct ManyCase {
     /// positions (in units of filler tags) at which a module tag is inserted
     pub modules_at: Vec<u32>,
     pub filler_type: u32,
+    /// 0: the fillers are 8-byte tags; 1..=3: the fillers are the *elements* of one
+    /// tag instead - 1 ELF section headers of a type that is skipped (every 25000th
+    /// in use), 2 EFI descriptors, 3 memory-map entries (at most 50 000)
+    #[serde(default)]
+    pub inner: u8,
+}
+
+/// The one tag of the `inner` variants.
+fn inner_tag(c: &ManyCase) -> Vec<u8> {
+    let n = c.fillers.min(50_000) as usize;
+    match c.inner {
+        1 => {
+            let mut body = vec![0u8; 12 + 40 * n];
+            put32(&mut body, 0, n as u32);
+            put32(&mut body, 4, 40);
+            put32(&mut body, 8, 0);
+            for e in 0..n {
+                put32(&mut body, 12 + 40 * e + 4, if e % 25000 == 24999 { 1 } else { 14 });
+            }
+            mb2_model::encode::tag(9, &body)
+        }
+        2 => {
+            let mut body = vec![0u8; 8 + 40 * n];
+            put32(&mut body, 0, 40);
+            put32(&mut body, 4, 1);
+            mb2_model::encode::tag(17, &body)
+        }
+        _ => {
+            let mut body = vec![0u8; 8 + 24 * n];
+            put32(&mut body, 0, 24);
+            mb2_model::encode::tag(6, &body)
+        }
+    }
 }
 
 pub const SMALL_STACK: usize = 1 << 20;
 
 fn many_region(c: &ManyCase) -> Vec<u8> {
+    if c.inner != 0 {
+        return mb2_model::encode::mbi(&[inner_tag(c)], 0, 0, true);
+    }
     let mut v = vec![0u8; 8];
     let module = mb2_model::encode::conformant_tag(3, 0x3A, 3, 0);
     let mut at: Vec<u32> = c.modules_at.clone();
@@ -407,6 +443,11 @@ fn many_exercise(ptr: *const u8) -> mb2_model::transcript::Transcript {
         t.push("g.efi_mmap", catch(|| mbi.efi_memory_map_tag().is_some()).map_or(Val::Panic, Val::B));
         t.push("g.custom_end", catch(|| mbi.get_tag::<multiboot2::EndTag>().map(|e| e as *const _ as *const u8 as usize - p)).map_or(Val::Panic, |o| o.map_or(Val::None, |o| Val::U(o as u64))));
         t.push("dbg", catch(|| format!("{mbi:?}").len()).map_or(Val::Panic, |_| Val::Ok));
+        // sub-iterators over the elements of one tag
+        t.push("elf", catch(|| mbi.elf_sections_tag().map(|e| e.sections().count())).map_or(Val::Panic, |o| o.map_or(Val::None, |n| Val::U(n as u64))));
+        t.push("elf.last", catch(|| mbi.elf_sections_tag().and_then(|e| e.sections().last().map(|s| s.section_type_raw()))).map_or(Val::Panic, |o| o.map_or(Val::None, |n| Val::U(n as u64))));
+        t.push("efi", catch(|| mbi.efi_memory_map_tag().map(|e| e.memory_areas().count())).map_or(Val::Panic, |o| o.map_or(Val::None, |n| Val::U(n as u64))));
+        t.push("mmap", catch(|| mbi.memory_map_tag().map(|e| e.memory_areas().len())).map_or(Val::Panic, |o| o.map_or(Val::None, |n| Val::U(n as u64))));
         t
     });
     match h.map(|h| h.join()) {
@@ -420,7 +461,7 @@ fn many_exercise(ptr: *const u8) -> mb2_model::transcript::Transcript {
 }
 
 pub fn eval_many(c: &ManyCase, obs: &mut Obs) -> Result<(), String> {
-    if c.fillers > 200_000 || c.modules_at.len() > 8 || c.filler_type <= 21 {
+    if c.fillers > 200_000 || c.modules_at.len() > 8 || c.filler_type <= 21 || c.inner > 3 {
         return Err("malformed case".into());
     }
     let region = many_region(c);
@@ -438,7 +479,23 @@ pub fn eval_many(c: &ManyCase, obs: &mut Obs) -> Result<(), String> {
     };
     let n_mod = c.modules_at.len() as u64;
     let total = c.fillers as u64 + n_mod + 1;
-    let want = [("load", Val::Txt("Ok".into())), ("tags", Val::U(total)), ("modules", Val::U(n_mod)), ("g.cmdline", Val::B(false)), ("g.efi_mmap", Val::B(false)), ("g.custom_end", Val::U(ts as u64 - 8)), ("dbg", Val::Ok)];
+    let n = c.fillers.min(50_000) as u64;
+    let want: Vec<(&str, Val)> = if c.inner == 0 {
+        vec![("load", Val::Txt("Ok".into())), ("tags", Val::U(total)), ("modules", Val::U(n_mod)), ("g.cmdline", Val::B(false)), ("g.efi_mmap", Val::B(false)), ("g.custom_end", Val::U(ts as u64 - 8)), ("dbg", Val::Ok), ("elf", Val::None), ("efi", Val::None), ("mmap", Val::None)]
+    } else {
+        let mut w = vec![("load", Val::Txt("Ok".into())), ("tags", Val::U(2)), ("modules", Val::U(0)), ("g.custom_end", Val::U(ts as u64 - 8)), ("dbg", Val::Ok)];
+        match c.inner {
+            // an empty section table may be rejected or iterated as empty (see C19)
+            1 if n > 0 => {
+                w.push(("elf", Val::U(n / 25000)));
+                w.push(("elf.last", if n >= 25000 { Val::U(1) } else { Val::None }));
+            }
+            2 => w.push(("efi", Val::U(n))),
+            3 => w.push(("mmap", Val::U(n))),
+            _ => {}
+        }
+        w
+    };
     for (k, v) in want {
         if t.get(k) != Some(&v) {
             return Err(format!("{} filler tags, modules at {:?}: {k}: expected {}, got {:?}", c.fillers, c.modules_at, v.render(), t.get(k).map(|x| x.render())));
@@ -451,16 +508,19 @@ fn enumerate_many(ctx: &Ctx) -> Box<dyn Iterator<Item = ManyCase>> {
     let mut v = Vec::new();
     let sizes: &[u32] = if ctx.tier == Tier::Thorough { &[0, 1, 100, 5_000, 20_000, 50_000, 100_000, 200_000] } else { &[0, 1, 100, 5_000, 20_000, 60_000] };
     for &n in sizes {
-        v.push(ManyCase { fillers: n, modules_at: vec![], filler_type: 0x1234 });
-        v.push(ManyCase { fillers: n, modules_at: vec![0, n], filler_type: 22 });
-        v.push(ManyCase { fillers: n, modules_at: vec![n / 2, n / 2, n], filler_type: 0xFFFF_FFFF });
+        v.push(ManyCase { fillers: n, modules_at: vec![], filler_type: 0x1234, inner: 0 });
+        for inner in 1..=3u8 {
+            v.push(ManyCase { fillers: n.min(50_000), modules_at: vec![], filler_type: 0x1234, inner });
+        }
+        v.push(ManyCase { fillers: n, modules_at: vec![0, n], filler_type: 22, inner: 0 });
+        v.push(ManyCase { fillers: n, modules_at: vec![n / 2, n / 2, n], filler_type: 0xFFFF_FFFF, inner: 0 });
     }
     Box::new(v.into_iter())
 }
 
 fn strategy_many(_: &Ctx) -> BoxedStrategy<ManyCase> {
     (prop_oneof![3 => 0u32..2000, 1 => 2000u32..60_000], proptest::collection::vec(any::<u32>(), 0..4), 22u32..)
-        .prop_map(|(fillers, at, filler_type)| ManyCase { fillers, modules_at: at.into_iter().map(|x| x % (fillers + 1)).collect(), filler_type })
+        .prop_map(|(fillers, at, filler_type)| ManyCase { fillers, modules_at: at.into_iter().map(|x| x % (fillers + 1)).collect(), filler_type, inner: if filler_type % 4 == 0 { 1 + (filler_type >> 2) as u8 % 3 } else { 0 } })
         .boxed()
 }
 
@@ -468,7 +528,7 @@ pub fn subs() -> Vec<Box<dyn Sub>> {
     vec![
         Box::new(PropSub::<ManyCase> {
             name: "many-tags",
-            rule: "very long tag lists: 0 .. 60 000 (thorough 200 000) 8-byte custom tags with 0..=3 module tags at chosen positions, exercised (load, tags().count(), module_tags().count()/last(), getters that have to walk the whole list, Debug of the boot information) on a thread with a 1 MiB stack inside the sandbox child, so that stack consumption that grows with the number of tags (recursion) becomes a crash. Oracle: no crash, counts and offsets equal the model. Every case is non-trivial; distinct by case",
+            rule: "very long lists: 0 .. 60 000 (thorough 200 000) 8-byte custom tags with 0..=3 module tags at chosen positions - or one tag with up to 50 000 elements (ELF section headers of a skipped type with every 25000th in use, EFI descriptors, memory-map entries) - exercised (load, tags().count(), module_tags().count()/last(), getters that have to walk the whole list, Debug of the boot information) on a thread with a 1 MiB stack inside the sandbox child, so that stack consumption that grows with the number of tags (recursion) becomes a crash. Oracle: no crash, counts and offsets equal the model. Every case is non-trivial; distinct by case",
             profiles: Profiles::Both,
             quick: 60,
             thorough: 2000,
